@@ -222,6 +222,7 @@ def run(pid, modname, tier, seed, env, scratch, nshards, t0):
     viols = []
     harness_errors = []
     samples = []
+    sample_kinds = set()
     for r in results:
         if r.get("harness_error"):
             harness_errors.append((r.get("_i"), r["harness_error"]))
@@ -242,9 +243,12 @@ def run(pid, modname, tier, seed, env, scratch, nshards, t0):
                 resid[k_] = v
         for v in r.get("violations", []):
             viols.append((bycase.get(r.get("_i")), v))
-        if r.get("sample") is not None and len(samples) < 4:
-            samples.append({"case": {k: v for k, v in bycase.get(r.get("_i"), {}).items() if not k.startswith("_")},
-                            "observed": r["sample"]})
+        if r.get("sample") is not None:
+            kind = str(bycase.get(r.get("_i"), {}).get("kind", ""))
+            if len(samples) < 3 or (kind not in sample_kinds and len(samples) < 8):
+                sample_kinds.add(kind)
+                samples.append({"case": {k: v for k, v in bycase.get(r.get("_i"), {}).items() if not k.startswith("_")},
+                                "observed": r["sample"]})
     fin = {}
     if hasattr(mod, "finalize"):
         fin = mod.finalize(results, tier) or {}
